@@ -38,6 +38,8 @@ def plan(ctx):
             # (name, clients, filters, topics, max subs, max publications, kinds)
             ("mixed", ["c1"], mixed, ["t", "$s/x"], 3, 1, ALL),
             ("roundrobin", ["c1"], rr, ["t"], 2, 2, ("plain",)),
+            # '$'-topics in every quick run, whatever the seed's filter pool
+            ("sysq", ["c1"], ["$s/#", "$s/x", "+/x", "$share/g1/$s/x"], ["$s/x"], 2, 1, ("plain", "ret")),
         ]
     return [
         ("mixed5", ["c1"], mixed + [f for f in ["$s/x", "t"] if f not in mixed][:1], ["t", "$s/x"], 3, 1, ALL),
